@@ -231,7 +231,9 @@ _also("C01", "the rule / redirect-state lookups hand the actor's answer through 
              "'no rules' (C01.R7), and the wrappers are reliable awaited round trips.")
 _also("C02", "whichever way the iteration over privileges / assignments is spelled (loops or iterator chains), no call in is_allowed or its "
              "closures selects by position (find/next/take .. on a hash map's order); a selecting call is accepted only when nothing but "
-             "the presence of its result is used.")
+             "the presence of its result is used. The computed privileges / assignments maps only grow while the rule set is computed "
+             "(no retain / remove / clear / drain on them): is_allowed tells 'a declared privilege matches, nobody assigned' from 'nothing "
+             "declared matches' only if every declared privilege is present.")
 _also("C03", "the claims every authorizer sees are built from this connection's kernel record (no cache, field-to-field mapping table).")
 _also("C04", "each signed agent call reads key id and value from the key keeper in that very call; query_pairs keeps every item with a "
              "non-empty name; the canonical form is looked for in the function and its closures (loop or iterator-chain spelling).")
@@ -239,7 +241,8 @@ _also("C05", "every upstream send carries the three inserts on its own path (not
 _also("C06", "the hand-over and audit maps are LRU hash maps on both sides; policy lookups done through a C helper are resolved with "
              "parameter substitution (key fields and byte-order tags).")
 _also("C07", "lookup and remove open the same map type; remove_audit takes the eBPF object's mutex with a blocking lock() and its failure "
-             "sources are inventoried through helpers and closures.")
+             "sources are inventoried through helpers and closures; 'no static identity state' covers proxy::Process (the resolved "
+             "caller process) as well as Claims / AuditEntry / TcpConnectionContext.")
 _also("C08", "the key file name is the guid verbatim at store, read-back and restart lookup; the stored text is parsed as stored (no "
              "lossy repair of damaged bytes).")
 _also("C09", "the 13 actor wrappers the loop relies on are reliable awaited round trips; an iteration that runs one endpoint's rule-id "
